@@ -33,3 +33,39 @@ def r21_c02(scn, v):
 
 def r21_c03(scn, v):
     return v.kind == "stuck-in-pausing" and "pending-with-unoffered-items" in _events(v)
+
+
+def r1_c07(scn, v):
+    """R1: join: N with N < number of inbound tasks; a further inbound task reports after the join
+    instance has fired (while the join runs or after it completed) and the join is staged and
+    offered again on the same route."""
+    if v.kind != "join-ran-again-after-late-arrival":
+        return False
+    from vf import lang
+
+    d = v.detail or {}
+    j = d.get("join")
+    t = scn["ir"]["tasks"].get(j) or {}
+    n = t.get("join")
+    inb = lang.inbound(scn["ir"]).get(j, ())
+    return isinstance(n, int) and not isinstance(n, bool) and n < len(inb)
+
+
+def r3_c08(scn, v):
+    """R3 seen through C08: the value of an output variable depends on completion order although all
+    its writers are causally ordered (ancestor / descendant): a context that merely inherited the
+    older value is merged after the newer publish (at a join or in the terminal context)."""
+    if v.kind != "output-depends-on-order":
+        return False
+    from vf import lang
+
+    d = v.detail or {}
+    ws = d.get("writers") or []
+    if not ws:
+        return False
+    rch = lang.reach(scn["ir"])
+    for i in range(len(ws)):
+        for j in range(i + 1, len(ws)):
+            if ws[j] not in rch[ws[i]] and ws[i] not in rch[ws[j]]:
+                return False
+    return True
